@@ -66,7 +66,8 @@ func gPow2(name string, maxLog int) int {
 }
 
 // Verif_C09_Pages: cfg%2: 0 TLSF, 1 linear; cfg/2%3: granularity 16 (handler disabled, round-up path), 1024, 4096;
-// cfg/6%2 = 1: page-boundary recipe (three buffers tile the block, one is freed) followed by one operation.
+// cfg/6%2 = 1: page-boundary recipe (three buffers tile the block, one is freed) followed by one operation;
+// cfg/12%2 = 1 (linear): double-stack script (lower request, upper request, one arbitrary operation).
 func Verif_C09_Pages(cfg int) {
 	linearAlg := cfg%2 == 1
 	G := []int{16, 1024, 4096}[(cfg/2)%3]
@@ -131,17 +132,25 @@ func Verif_C09_Pages(cfg int) {
 	if recipe {
 		K = 1
 	}
+	// cfg/12%2 = 1 (linear only): double-stack script - the first operation is a lower request, the second an upper
+	// request, the third is arbitrary (reaches an upper request squeezed between both stacks in three operations)
+	script := (cfg/12)%2 == 1 && linearAlg
+	if script {
+		K = 3
+	}
 	for step := 0; step < K; step++ {
 		nops := 1
 		if len(live) > 0 {
 			nops = 2
 		}
-		if verifChoice("op", nops) == 1 {
+		scripted := script && step < 2
+		if !scripted && verifChoice("op", nops) == 1 {
 			i := verifChoice("victim", len(live))
 			panicked := verifCatch(func() {
 				verifAssert("C09/free-of-live-allocation-succeeds", m.Free(live[i].h) == nil)
 			})
 			verifAssert("C09/free-does-not-panic", !panicked)
+			verifAssert("C13/granularity/free-does-not-panic", !panicked)
 			if panicked {
 				return
 			}
@@ -167,7 +176,9 @@ func Verif_C09_Pages(cfg int) {
 			}
 			kind := kinds[verifChoice("kind", len(kinds))]
 			upper := false
-			if linearAlg {
+			if scripted {
+				upper = step == 1
+			} else if linearAlg {
 				upper = verifChoice("upper", 2) == 1
 			}
 			var ok bool
@@ -177,6 +188,7 @@ func Verif_C09_Pages(cfg int) {
 				ok, req, err = m.CreateAllocationRequest(size, uint(align), upper, kind, 0, int(^uint(0)>>1))
 			})
 			verifAssert("C09/request-does-not-panic", !panicked)
+			verifAssert("C13/granularity/request-does-not-panic", !panicked) // the same run serves C13 (block level, granularity rules in force)
 			if panicked {
 				return
 			}
@@ -184,6 +196,7 @@ func Verif_C09_Pages(cfg int) {
 				ud := new(int)
 				panicked = verifCatch(func() { err = m.Alloc(req, kind, ud) })
 				verifAssert("C09/commit-does-not-panic", !panicked)
+				verifAssert("C13/granularity/commit-does-not-panic", !panicked)
 				if panicked {
 					return
 				}
